@@ -1,3 +1,4 @@
+import MiniconfVerif.Lemmas.IterRootGen
 import MiniconfVerif.Lemmas.GenTie
 import MiniconfVerif.Lemmas.IterRoot
 import MiniconfVerif.Lemmas.IterGen
@@ -13,8 +14,8 @@ the refused key, and the iteration still continues with every other node and ter
 for ever after; the exact-size counter; iteration rooted at any node given by any key
 (simulation: the rooted iterator is the subtree's iterator with the root path prefixed and all
 depths shifted).  The combination "rooted *and* limited below the subtree's depth / without
-capacity" follows from the same two lemmas (`poll_lift`, `poll_init_G`) but is not stated as a
-theorem of its own; it is covered by the runs. -/
+capacity" is `rooted_limited_exact` (`poll_lift` composed with `poll_init_G` for the subtree; `root()` analysed for
+every state length). -/
 namespace MiniconfVerif.C11
 open MiniconfVerif
 
@@ -114,6 +115,25 @@ theorem rooted_exact (s : Schema) (hwf : s.WF) (hsm : s.Small) (D : Nat) (hD : s
   rw [hit]
   exact poll_rooted s hwf hsm D hD fresh hacc c t0 h1 n
 
+/-- **Rooted *and* depth-limited / capacity-limited iteration is exact**, for every state length `D` (also below the
+type's depth) and a root given by *any* key source: if `root(keys)` succeeds it selected a node at some path `c`
+with `|c| ≤ D`, and for every target that accepted the root path (being `fc` there) and does not panic on the
+subtree, polling yields — in order, once each, lifted by the root depth — one item per leaf of the **subtree cut
+off at depth `D - |c|`** (its leaves of relative depth at most `D - |c|` and its internal nodes at that depth;
+`Err(depth)` where the target refused a key), then `None` for ever. -/
+theorem rooted_limited_exact (s : Schema) (hwf : s.WF) (hsm : s.Small) (D : Nat) (ks : KeySrc) (it : IterSt)
+    (hroot : IterSt.withRoot s D ks = .ok it) :
+    ∃ c t0, s.at? c = some t0 ∧ c.length ≤ D ∧ it.root = c.length ∧
+      ∀ (fresh fc : Target), cbAlong Target.cbP s c (fresh, false) = some (fc, false) → NoCbPanic t0 fc → ∀ n,
+        it.poll s D fresh n =
+          (((t0.trunc (D - c.length)).leaves.map fun P => liftPolled c.length (Polled.item (cutItem t0 fc P))) ++
+            List.replicate n Polled.finished).take n := by
+  obtain ⟨c, t0, h1, h2, rfl⟩ := withRoot_lift s hwf D ks it hroot
+  refine ⟨c, t0, h1, h2, by simp [liftSt, IterSt.init], ?_⟩
+  intro fresh fc hc hnp n
+  have := poll_rooted_G s hwf hsm c t0 h1 fresh fc hc (D - c.length) hnp n
+  rwa [show D - c.length + c.length = D by omega] at this
+
 /-- `ExactSize`: the wrapper's counter, started at `Metadata::count`; it depends on the inner
 iterator only through what `next()` returns.  `none` = the overflow-checked `count -= 1`
 would underflow, or `debug_assert!(self.count == 0)` on `None` would fail. -/
@@ -179,6 +199,10 @@ example : (IterSt.init 1).poll ex 1 .unit 5 =
 example : (IterSt.init 2).poll ex 2 (.idx [] 1 100) 7 =
     [.item (.node (.idx [0] 1 100) (.leaf 1)), .item (.capErr 2), .item (.capErr 2), .item (.capErr 2),
      .item (.node (.idx [2] 1 100) (.leaf 1)), .finished, .finished] := by decide +kernel
+-- rooted at `bar` with one state slot: depth limit 1 relative to the tree root, the array itself is the only item
+example : (match IterSt.withRoot ex 1 (.list [.str "bar".toList]) with
+    | .ok it => decide (it.poll ex 1 .unit 3 = [.item (.node .unit (.internal 1)), .finished, .finished])
+    | .error _ => false) = true := by decide +kernel
 example : exactCounts ((IterSt.init 2).poll ex 2 .unit 7) ex.meta.count =
     [some 4, some 3, some 2, some 1, some 0, some 0, some 0] := by decide +kernel
 
